@@ -126,8 +126,11 @@ package txpool
 
 // a selection hands out transactions that were pending when it started and are not expired, each at most once (they sit at
 // distinct positions, hence have distinct hashes); the only change to the pool is that slots are cleared (expired transactions)
+// GetTxs changes the pool only through delTx, whose contract says what a removal does to slots AND index (the transaction's own
+// entry and, for a box, every sub-transaction's entry go): a removal done by hand would have to repeat all of that
 //@ func (*TxPool).GetTxs
 //@   props C18
+//@   opt writes-only-via-callees=TxPool.txs,TxPool.hashIndexMap
 //@   requires wfPool(pool) && !held(pool.RW)
 //@   ensures wfPool(pool) && !held(pool.RW)
 //@   ensures len(result) <= max(size, 0)
